@@ -112,6 +112,13 @@ def operations(rng):
         h.predict(u)
         h.predict_proba(u[:5])
     ops["HierarchicalGaussianMixture.fit+predict+predict_proba"] = fp
+    same = np.tile(u[:1], (24, 1))                                   # a data set of identical rows
+    blob_dup = np.vstack([u[:60], np.tile(u[7:8], (30, 1))])            # an ordinary blob plus 30 copies of one point
+    w_spike = np.concatenate([np.full(60, 1e-12), np.full(30, 1.0)])    # ... that carry all the weight
+    ops["HierarchicalGaussianMixture.fit(identical rows)"] = lambda: HierarchicalGaussianMixture().fit(same)
+    ops["HierarchicalGaussianMixture.fit(blob + 30 copies of one point)"] = lambda: HierarchicalGaussianMixture(min_points=4).fit(blob_dup)
+    ops["HierarchicalGaussianMixture.fit(weight on the copies, normalize)"] = lambda: HierarchicalGaussianMixture(min_points=4, normalize=True).fit(blob_dup, w_spike)
+    ops["GaussianMixture(2).fit(identical rows, random_state=3)"] = lambda: GaussianMixture(2, random_state=3).fit(same)
     ops["ModeStatistics.from_particles"] = lambda: ModeStatistics.from_particles(u, w, labels)
     ops["ModeStatistics.from_global"] = lambda: ModeStatistics.from_global(u, w)
     ops["tools.systematic_resample"] = lambda: tools.systematic_resample(50, w)
@@ -174,8 +181,12 @@ def op_case(kind, name, cfg, gen_seed):
             f = sampler_ops(cfg)[name]()      # warm start (reseeds to 4242 inside), returns the op
             np.random.seed(amb)
         pre = state_hash()
-        with Tap() as tap, contextlib.redirect_stdout(io.StringIO()):
-            f()
+        with Tap() as tap, contextlib.redirect_stdout(io.StringIO()), np.errstate(all="ignore"):
+            try:
+                f()
+            except Exception:
+                if kind != "lib":
+                    raise              # sampler operations must not raise; library fits on degenerate data may
         res[amb] = (state_hash(), float(np.random.rand()), [(a, b, str(c)) for a, b, c in tap.reseeds], tap.total)
     hashes = {res[a][0] for a in res}
     nxt = {res[a][1] for a in res}
